@@ -321,3 +321,150 @@ Proof.
   - intros u. rewrite (same_struct_successors _ _ _ H). apply (wf_out _ Hf).
   - intros u v E. rewrite !(same_struct_time _ _ _ H). apply (wf_time _ Hf). now apply (same_struct_edge _ _ _ _ H).
 Qed.
+
+(* ================================================================== which nodes the walk relabels *)
+From Coq Require Import Relations.
+
+Definition reach (st : state) : Z -> Z -> Prop := clos_refl_trans Z (edge st).
+Definition from (st : state) (fr : list Z) (n : Z) : Prop := exists x, In x fr /\ reach st x n.
+
+Lemma reach_same_struct s s' a b : same_struct s s' -> (reach s' a b <-> reach s a b).
+Proof.
+  intros H. split; induction 1.
+  - apply rt_step. now apply (same_struct_edge _ _ _ _ H).
+  - apply rt_refl.
+  - eapply rt_trans; eauto.
+  - apply rt_step. now apply (same_struct_edge _ _ _ _ H).
+  - apply rt_refl.
+  - eapply rt_trans; eauto.
+Qed.
+
+Lemma from_same_struct s s' fr n : same_struct s s' -> (from s' fr n <-> from s fr n).
+Proof. intros H. unfold from. split; intros (x & Hx & Hr); exists x; (split; [exact Hx|now apply (reach_same_struct _ _ _ _ H)]). Qed.
+
+Lemma from_step st fr n : from st fr n <-> In n fr \/ from st (flat_map (successors st) fr) n.
+Proof.
+  split.
+  - intros [x [I A]]. apply clos_rt_rt1n in A. inversion A as [|y z Hxy Hyz]; subst; [left; auto|].
+    right. exists y. split; [apply in_flat_map; exists x; split; [exact I|now apply edge_successors]|now apply clos_rt1n_rt].
+  - intros [I|[y [I A]]]; [exists n; split; [exact I|apply rt_refl]|].
+    apply in_flat_map in I. destruct I as [x [Ix Iy]]. exists x. split; [exact Ix|].
+    eapply rt_trans; [apply rt_step; apply edge_successors; exact Iy|exact A].
+Qed.
+
+Lemma reach_is_node st a b : W_dict st -> is_node st a -> reach st a b -> is_node st b.
+Proof. intros Hd Ha H. induction H as [x y Hxy| |x y z _ IH1 _ IH2]; auto. apply (wd_edge_nodes _ Hd x y Hxy). Qed.
+
+(* ---- the lineage attribute ---- *)
+Lemma visit_klin oldT newT newL st flag tn ln next x m :
+  attr (acc_state (visit oldT newT newL (st, flag, tn, ln, next) x)) m KLin =
+    match newL with
+    | Some l => if (m =? x) && has_node st x then Some (VZ l) else attr st m KLin
+    | None => attr st m KLin
+    end.
+Proof.
+  assert (K : forall s a v, attr (set_node_attr s a KTrack v) m KLin = attr s m KLin)
+    by (intros s a v; apply sna_attr_other; right; discriminate).
+  unfold visit. destruct newL as [l|].
+  - set (s1 := set_node_attr st x KLin (VZ l)).
+    assert (E1 : attr s1 m KLin = if (m =? x) && has_node st x then Some (VZ l) else attr st m KLin).
+    { unfold s1. destruct (Z.eqb_spec m x) as [->|Hm]; cbn [andb].
+      - destruct (has_node st x) eqn:Hx.
+        + apply sna_attr_same. now apply has_node_is_node.
+        + unfold set_node_attr. unfold has_node, haskey in Hx. destruct (lookup x (nodes (g st))); [discriminate|reflexivity].
+      - apply sna_attr_other. now left. }
+    destruct flag; [destruct (match zattr s1 x KTrack with Some t => t =? oldT | None => false end)|]; cbn [acc_state]; rewrite ?K; exact E1.
+  - destruct flag; [destruct (match zattr st x KTrack with Some t => t =? oldT | None => false end)|]; cbn [acc_state]; rewrite ?K; reflexivity.
+Qed.
+
+Lemma level_klin oldT newT l : forall curr st flag tn ln next m,
+  (forall x, In x curr -> is_node st x) ->
+  attr (acc_state (fold_left (visit oldT newT (Some l)) curr (st, flag, tn, ln, next))) m KLin =
+    if memz m curr then Some (VZ l) else attr st m KLin.
+Proof.
+  induction curr as [|x r IH]; intros st flag tn ln next m Hn; cbn [fold_left]; [reflexivity|].
+  destruct (visit oldT newT (Some l) (st, flag, tn, ln, next) x) as [[[[s1 f1] tn1] ln1] nx1] eqn:E.
+  pose proof (visit_klin oldT newT (Some l) st flag tn ln next x m) as V. rewrite E in V. cbn [acc_state] in V.
+  pose proof (visit_struct oldT newT (Some l) st flag tn ln next x) as [S1 _]. rewrite E in S1. cbn [acc_state] in S1.
+  rewrite IH by (intros y Hy; apply (same_struct_is_node _ _ _ S1); apply Hn; now right).
+  rewrite V. assert (has_node st x = true) as -> by (apply has_node_is_node; apply Hn; now left).
+  rewrite andb_true_r. unfold memz. cbn [existsb]. destruct (m =? x); cbn [orb]; [|reflexivity].
+  destruct (existsb (Z.eqb m) r); reflexivity.
+Qed.
+
+Lemma level_klin_none oldT newT : forall curr st flag tn ln next m,
+  attr (acc_state (fold_left (visit oldT newT None) curr (st, flag, tn, ln, next))) m KLin = attr st m KLin.
+Proof.
+  induction curr as [|x r IH]; intros st flag tn ln next m; cbn [fold_left]; [reflexivity|].
+  destruct (visit oldT newT None (st, flag, tn, ln, next) x) as [[[[s1 f1] tn1] ln1] nx1] eqn:E.
+  pose proof (visit_klin oldT newT None st flag tn ln next x m) as V. rewrite E in V. cbn [acc_state] in V.
+  now rewrite IH, V.
+Qed.
+
+Lemma walk_klin_none oldT newT : forall fuel st curr flag tn ln st' tn' ln' m,
+  walk fuel oldT newT None st curr flag tn ln = Some (st', tn', ln') -> attr st' m KLin = attr st m KLin.
+Proof.
+  induction fuel as [|f IH]; intros st curr flag tn ln st' tn' ln' m H.
+  - destruct curr; cbn in H; [injection H as <- _ _; reflexivity|discriminate].
+  - destruct curr as [|c cs]; [cbn in H; injection H as <- _ _; reflexivity|].
+    cbn [walk] in H.
+    destruct (fold_left (visit oldT newT None) (c :: cs) (st, flag, tn, ln, [])) as [[[[s1 f1] tn1] ln1] nx1] eqn:E.
+    pose proof (level_klin_none oldT newT (c :: cs) st flag tn ln [] m) as L. rewrite E in L. cbn [acc_state] in L.
+    rewrite (IH _ _ _ _ _ _ _ _ m H). exact L.
+Qed.
+
+(* the walk only ever writes l: a node that already carries l keeps it *)
+Lemma walk_klin_keeps oldT newT l : forall fuel st curr flag tn ln st' tn' ln' m,
+  W_dict st -> (forall x, In x curr -> is_node st x) ->
+  walk fuel oldT newT (Some l) st curr flag tn ln = Some (st', tn', ln') ->
+  attr st m KLin = Some (VZ l) -> attr st' m KLin = Some (VZ l).
+Proof.
+  induction fuel as [|f IH]; intros st curr flag tn ln st' tn' ln' m Hd Hn H Hm.
+  - destruct curr; cbn in H; [injection H as <- _ _; exact Hm|discriminate].
+  - destruct curr as [|c cs]; [cbn in H; injection H as <- _ _; exact Hm|].
+    cbn [walk] in H.
+    destruct (fold_left (visit oldT newT (Some l)) (c :: cs) (st, flag, tn, ln, [])) as [[[[s1 f1] tn1] ln1] nx1] eqn:E.
+    pose proof (level_klin oldT newT l (c :: cs) st flag tn ln [] m Hn) as L. rewrite E in L. cbn [acc_state] in L.
+    pose proof (level_struct oldT newT (Some l) (c :: cs) st flag tn ln []) as LS. cbn zeta in LS. rewrite E in LS.
+    destruct LS as [S1 S2]. cbn [acc_state acc_next] in S1, S2. cbn [app] in S2. subst nx1.
+    pose proof (level_vz oldT newT (Some l) (c :: cs) st flag tn ln []) as LV. rewrite E in LV. cbn [acc_state] in LV.
+    assert (Hd1 : W_dict s1) by (now apply (same_struct_W_dict st s1)).
+    assert (Hn1 : forall x, In x (flat_map (successors st) (c :: cs)) -> is_node s1 x).
+    { intros x Hx. apply in_flat_map in Hx. destruct Hx as (u & Hu & Hux). apply (same_struct_is_node _ _ _ S1).
+      apply (wd_edge_nodes _ Hd u x). now apply edge_successors. }
+    apply (IH s1 _ f1 tn1 ln1 st' tn' ln' m Hd1 Hn1 H).
+    rewrite L. destruct (memz m (c :: cs)); [reflexivity|exact Hm].
+Qed.
+
+(* with a new lineage id l: exactly the nodes reachable from the frontier get l *)
+Lemma walk_klin oldT newT l : forall fuel st curr flag tn ln st' tn' ln' m,
+  W_dict st -> (forall x, In x curr -> is_node st x) ->
+  walk fuel oldT newT (Some l) st curr flag tn ln = Some (st', tn', ln') ->
+  (from st curr m -> attr st' m KLin = Some (VZ l)) /\ (~ from st curr m -> attr st' m KLin = attr st m KLin).
+Proof.
+  induction fuel as [|f IH]; intros st curr flag tn ln st' tn' ln' m Hd Hn H.
+  - destruct curr; cbn in H; [injection H as <- _ _|discriminate]. split; [intros (x & [] & _)|reflexivity].
+  - destruct curr as [|c cs]; [cbn in H; injection H as <- _ _; split; [intros (x & [] & _)|reflexivity]|].
+    cbn [walk] in H.
+    destruct (fold_left (visit oldT newT (Some l)) (c :: cs) (st, flag, tn, ln, [])) as [[[[s1 f1] tn1] ln1] nx1] eqn:E.
+    pose proof (level_klin oldT newT l (c :: cs) st flag tn ln [] m Hn) as L. rewrite E in L. cbn [acc_state] in L.
+    pose proof (level_struct oldT newT (Some l) (c :: cs) st flag tn ln []) as LS. cbn zeta in LS. rewrite E in LS.
+    destruct LS as [S1 S2]. cbn [acc_state acc_next] in S1, S2. cbn [app] in S2. subst nx1.
+    pose proof (level_vz oldT newT (Some l) (c :: cs) st flag tn ln []) as LV. rewrite E in LV. cbn [acc_state] in LV.
+    assert (Hd1 : W_dict s1) by (now apply (same_struct_W_dict st s1)).
+    assert (Hn1 : forall x, In x (flat_map (successors st) (c :: cs)) -> is_node s1 x).
+    { intros x Hx. apply in_flat_map in Hx. destruct Hx as (u & Hu & Hux). apply (same_struct_is_node _ _ _ S1).
+      apply (wd_edge_nodes _ Hd u x). now apply edge_successors. }
+    destruct (IH s1 _ f1 tn1 ln1 st' tn' ln' m Hd1 Hn1 H) as [I1 I2].
+    assert (Fr : from s1 (flat_map (successors st) (c :: cs)) m <-> from st (flat_map (successors st) (c :: cs)) m)
+      by (apply from_same_struct; exact S1).
+    split.
+    + intros F. apply from_step in F. destruct F as [Hin|F].
+      * apply (walk_klin_keeps oldT newT l f s1 _ f1 tn1 ln1 st' tn' ln' m Hd1 Hn1 H).
+        rewrite L. apply memz_In in Hin. now rewrite Hin.
+      * apply I1. now apply Fr.
+    + intros NF. assert (~ from s1 (flat_map (successors st) (c :: cs)) m) as NF1.
+      { intros F. apply NF. apply from_step. right. now apply Fr. }
+      rewrite (I2 NF1), L. destruct (memz m (c :: cs)) eqn:Em; [|reflexivity].
+      exfalso. apply NF. apply from_step. left. now apply memz_In.
+Qed.
